@@ -606,10 +606,24 @@ Proof.
   destruct (sstate_cmp (s_state b) (s_state c)) eqn:E2; try discriminate. intros _ _.
   rewrite (cmp_gt_trans _ sstate_laws _ _ _ E1 E2). reflexivity.
 Qed.
+Lemma cid_ltb_lt a b : cid_ltb a b = true <-> cid_cmp a b = Lt.
+Proof. unfold cid_ltb. destruct (cid_cmp a b); split; congruence. Qed.
+Lemma kval_gt_spec a b : kval_gt a b = true <->
+  (krank (k_status b) < krank (k_status a) \/
+   (krank (k_status a) = krank (k_status b) /\ cid_cmp (k_cid a) (k_cid b) = Lt)).
+Proof. unfold kval_gt. rewrite orb_true_iff, andb_true_iff, N.ltb_lt, N.eqb_eq, cid_ltb_lt. tauto. Qed.
 Lemma kval_gt_asym a b : kval_gt a b = true -> kval_gt b a = false.
-Proof. unfold kval_gt. rewrite N.ltb_lt, N.ltb_ge. lia. Qed.
+Proof.
+  intros H. apply kval_gt_spec in H. destruct (kval_gt b a) eqn:E; [|reflexivity].
+  apply kval_gt_spec in E. destruct H as [H|[H1 H2]], E as [E|[E1 E2]]; try lia.
+  rewrite (cmp_antisym _ cid_laws (k_cid a) (k_cid b)), H2 in E2. discriminate.
+Qed.
 Lemma kval_gt_trans a b c : kval_gt a b = true -> kval_gt b c = true -> kval_gt a c = true.
-Proof. unfold kval_gt. rewrite !N.ltb_lt. lia. Qed.
+Proof.
+  intros H1 H2. apply kval_gt_spec in H1. apply kval_gt_spec in H2. apply kval_gt_spec.
+  destruct H1 as [H1|[H1 H1']], H2 as [H2|[H2 H2']]; try (left; lia).
+  right. split; [lia|]. exact (cmp_trans _ cid_laws _ _ _ H1' H2').
+Qed.
 
 (* a strictly greater state than a revocation is an earlier revocation *)
 Lemma sval_gt_revoked v' v rc : sval_gt v' v = true -> s_state v = RevokedAt rc ->
@@ -655,8 +669,6 @@ Definition SessIssuedDistinct (ins : list (cid * smap)) : Prop :=
     (k1 = k2 <-> s_issued v1 = s_issued v2).
 Definition KeyConsistent : list (cid * kmap) -> Prop :=
   entries_rel (fun v1 v2 => k_status v1 = k_status v2 -> k_pay v1 = k_pay v2).
-Definition KeyNoTie : list (cid * kmap) -> Prop :=
-  entries_rel (fun v1 v2 => k_status v1 = k_status v2 -> k_cid v1 = k_cid v2).
 Definition KeyWindow (trim : cid) : list (cid * kmap) -> Prop :=
   entries_rel (fun v1 v2 => kval_dead trim v1 = true -> kval_dead trim v2 = true).
 Definition AuditConsistent : list (cid * amap) -> Prop := entries_rel (fun v1 v2 : N => v1 = v2).
@@ -837,16 +849,19 @@ Proof. reflexivity. Qed.
 Lemma krank_inj a b : krank a = krank b -> a = b.
 Proof. destruct a, b; cbn; congruence. Qed.
 
-Lemma key_cons ins : WellFormed N.compare ins -> KeyConsistent ins -> KeyNoTie ins -> Cons N.compare kval_gt ins.
+Lemma key_cons ins : WellFormed N.compare ins -> KeyConsistent ins -> Cons N.compare kval_gt ins.
 Proof.
-  intros HW HC HT c1 m1 c2 m2 k v1 v2 I1 I2 G1 G2. unfold comparable, kval_gt.
+  intros HW HC c1 m1 c2 m2 k v1 v2 I1 I2 G1 G2. unfold comparable.
   pose proof (entries_rel_get N.compare N_laws _ _ HC _ _ _ _ _ _ _ I1 I2 G1 G2) as Hp.
-  pose proof (entries_rel_get N.compare N_laws _ _ HT _ _ _ _ _ _ _ I1 I2 G1 G2) as Hc.
   destruct (N.lt_trichotomy (krank (k_status v1)) (krank (k_status v2))) as [H|[H|H]].
-  - right. right. apply N.ltb_lt. exact H.
-  - left. apply krank_inj in H. specialize (Hp H). specialize (Hc H).
-    destruct v1 as [[s1 c1'] p1], v2 as [[s2 c2'] p2]. unfold k_status, k_cid, k_pay in *. cbn in *. congruence.
-  - right. left. apply N.ltb_lt. exact H.
+  - right. right. apply kval_gt_spec. left. exact H.
+  - destruct (cid_cmp (k_cid v1) (k_cid v2)) eqn:E.
+    + left. apply (cmp_eq _ cid_laws) in E. pose proof (krank_inj _ _ H) as Hs. specialize (Hp Hs).
+      destruct v1 as [[s1 c1'] p1], v2 as [[s2 c2'] p2]. unfold k_status, k_cid, k_pay in *. cbn in *. congruence.
+    + right. left. apply kval_gt_spec. right. split; [exact H | exact E].
+    + right. right. apply kval_gt_spec. right. split; [symmetry; exact H|].
+      rewrite (cmp_antisym _ cid_laws (k_cid v1) (k_cid v2)), E. reflexivity.
+  - right. left. apply kval_gt_spec. left. exact H.
 Qed.
 Lemma key_win trim ins : KeyWindow trim ins -> Win N.compare (kval_dead trim) ins.
 Proof.
@@ -855,31 +870,53 @@ Proof.
 Qed.
 
 Theorem key_tree_indep trim ins s1 s2 :
-  WellFormed N.compare ins -> KeyConsistent ins -> KeyNoTie ins -> KeyWindow trim ins ->
+  WellFormed N.compare ins -> KeyConsistent ins -> KeyWindow trim ins ->
   wf ins s1 -> wf ins s2 -> is_node s1 -> is_node s2 -> same_leafset s1 s2 ->
   eval (key_merge trim) ins s1 = eval (key_merge trim) ins s2.
 Proof.
-  intros HWf HC HT HWn W1 W2 N1 N2 Hl. rewrite key_merge_generic.
+  intros HWf HC HWn W1 W2 N1 N2 Hl. rewrite key_merge_generic.
   exact (tree_indep N.compare N_laws kval_gt (kval_dead trim) kval_gt_asym kval_gt_trans ins s1 s2
-    HWf (key_cons _ HWf HC HT) (key_win _ _ HWn) W1 W2 N1 N2 Hl).
+    HWf (key_cons _ HWf HC) (key_win _ _ HWn) W1 W2 N1 N2 Hl).
+Qed.
+
+(* a strictly greater record than a revoked one is revoked at an earlier status cid *)
+Lemma kval_gt_revoked v' v : kval_gt v' v = true -> k_status v = KRevoked ->
+  k_status v' = KRevoked /\ cid_cmp (k_cid v') (k_cid v) = Lt.
+Proof.
+  intros H E. apply kval_gt_spec in H. rewrite E in H. destruct H as [H|[H1 H2]].
+  - destruct (k_status v'); cbn in H; lia.
+  - split; [apply krank_inj; exact H1 | exact H2].
 Qed.
 
 Theorem key_revocation_dominates trim ins s i ci mi k v c m :
-  WellFormed N.compare ins -> KeyConsistent ins -> KeyNoTie ins -> KeyWindow trim ins ->
+  WellFormed N.compare ins -> KeyConsistent ins -> KeyWindow trim ins ->
   wf ins s -> is_node s -> eval (key_merge trim) ins s = Some (c, m) ->
   In i (leaves s) -> nth_error ins (N.to_nat i) = Some (ci, mi) -> In (k, v) mi ->
   k_status v = KRevoked -> cid_ltb (k_cid v) trim = false ->
-  In (k, v) m.
+  exists v', In (k, v') m /\ k_status v' = KRevoked /\ cle (k_cid v') (k_cid v) /\
+    (exists j cj mj, In j (leaves s) /\ nth_error ins (N.to_nat j) = Some (cj, mj) /\ In (k, v') mj) /\
+    (forall j cj mj w, In j (leaves s) -> nth_error ins (N.to_nat j) = Some (cj, mj) -> In (k, w) mj ->
+       k_status w = KRevoked -> cle (k_cid v') (k_cid w)).
 Proof.
-  intros HWf HC HT HWn W Nn E Hi Ei Hin Est Hlive. rewrite key_merge_generic in E.
+  intros HWf HC HWn W Nn E Hi Ei Hin Est Hlive. rewrite key_merge_generic in E.
   pose proof (HWf _ _ (nth_error_In _ _ Ei)) as Smi.
   assert (Dv : kval_dead trim v = false) by (unfold kval_dead; rewrite Est; exact Hlive).
   destruct (tree_dominance N.compare N_laws kval_gt (kval_dead trim) kval_gt_asym kval_gt_trans ins
-    s i ci mi k v c m HWf (key_cons _ HWf HC HT) (key_win _ _ HWn) W Nn E Hi Ei (in_get _ N_laws _ _ _ Smi Hin) Dv)
-    as [v' [G' [Hge _]]].
+    s i ci mi k v c m HWf (key_cons _ HWf HC) (key_win _ _ HWn) W Nn E Hi Ei (in_get _ N_laws _ _ _ Smi Hin) Dv)
+    as [v' [G' [Hge [Dv' [[j [cj [mj [Hj [Ej Gj]]]]] Hall]]]]].
+  assert (Hrev : forall w, k_status w = KRevoked -> v' = w \/ kval_gt v' w = true ->
+            k_status v' = KRevoked /\ cle (k_cid v') (k_cid w)).
+  { intros w Ew [->|Hg].
+    - split; [exact Ew | apply cle_refl].
+    - destruct (kval_gt_revoked _ _ Hg Ew) as [E1 E2]. split; [exact E1|]. unfold cle. rewrite E2. discriminate. }
+  destruct (Hrev v Est Hge) as [Est' Hle].
   destruct (get_in N.compare _ _ _ G') as [k1 [J1 E1]]. apply (cmp_eq _ N_laws) in E1. subst k1.
-  destruct Hge as [->|Hg]; [exact J1|]. exfalso. unfold kval_gt in Hg. rewrite Est in Hg.
-  apply N.ltb_lt in Hg. destruct (k_status v'); cbn in Hg; lia.
+  exists v'. split; [exact J1|]. split; [exact Est'|]. split; [exact Hle|]. split.
+  - destruct (get_in N.compare _ _ _ Gj) as [k2 [J2 E2]]. apply (cmp_eq _ N_laws) in E2. subst k2.
+    exists j, cj, mj. auto.
+  - intros j' cj' mj' w Hj' Ej' Hw Ew.
+    pose proof (in_get _ N_laws _ _ _ (HWf _ _ (nth_error_In _ _ Ej')) Hw) as Gw.
+    exact (proj2 (Hrev w Ew (Hall _ _ _ _ Hj' Ej' Gw))).
 Qed.
 
 (* ================================================================== audit log *)
@@ -1024,12 +1061,12 @@ Proof.
 Qed.
 
 Theorem key_comm trim a b :
-  WellFormed N.compare [a; b] -> KeyConsistent [a; b] -> KeyNoTie [a; b] -> KeyWindow trim [a; b] ->
+  WellFormed N.compare [a; b] -> KeyConsistent [a; b] -> KeyWindow trim [a; b] ->
   repl_merge (key_merge trim) a b = repl_merge (key_merge trim) b a.
 Proof.
-  intros HWf HC HT HWn.
+  intros HWf HC HWn.
   assert (H : Some (repl_merge (key_merge trim) a b) = Some (repl_merge (key_merge trim) b a)).
-  { refine (key_tree_indep trim [a; b] (Nd (L 0) (L 1)) (Nd (L 1) (L 0)) HWf HC HT HWn _ _ I I _).
+  { refine (key_tree_indep trim [a; b] (Nd (L 0) (L 1)) (Nd (L 1) (L 0)) HWf HC HWn _ _ I I _).
     - apply wf2; lia.
     - apply wf2; lia.
     - intros i. cbn. tauto. }
@@ -1037,15 +1074,15 @@ Proof.
 Qed.
 
 Theorem key_assoc trim a b c :
-  WellFormed N.compare [a; b; c] -> KeyConsistent [a; b; c] -> KeyNoTie [a; b; c] -> KeyWindow trim [a; b; c] ->
+  WellFormed N.compare [a; b; c] -> KeyConsistent [a; b; c] -> KeyWindow trim [a; b; c] ->
   repl_merge (key_merge trim) (repl_merge (key_merge trim) a b) c
   = repl_merge (key_merge trim) a (repl_merge (key_merge trim) b c).
 Proof.
-  intros HWf HC HT HWn.
+  intros HWf HC HWn.
   assert (H : Some (repl_merge (key_merge trim) (repl_merge (key_merge trim) a b) c)
             = Some (repl_merge (key_merge trim) a (repl_merge (key_merge trim) b c))).
   { refine (key_tree_indep trim [a; b; c] (Nd (Nd (L 0) (L 1)) (L 2)) (Nd (L 0) (Nd (L 1) (L 2)))
-      HWf HC HT HWn _ _ I I _).
+      HWf HC HWn _ _ I I _).
     - cbn. repeat split; discriminate.
     - cbn. repeat split; discriminate.
     - intros i. cbn. tauto. }
@@ -1061,13 +1098,13 @@ Proof.
   destruct (cid_gtb (fst a) (fst a)); reflexivity.
 Qed.
 
-(* ================================================================== the key-internal defect *)
-(* the statement one would want: no premise about status cids *)
-Definition key_full_statement : Prop :=
+(* ================================================================== the key-internal defect (PRE-FIX code) *)
+(* order/grouping independence of the merge as it was BEFORE /repo ea75008 (status cid ignored) *)
+Definition key_prefix_full_statement : Prop :=
   forall trim ins s1 s2,
     WellFormed N.compare ins -> KeyConsistent ins -> KeyWindow trim ins ->
     wf ins s1 -> wf ins s2 -> is_node s1 -> is_node s2 -> same_leafset s1 s2 ->
-    eval (key_merge trim) ins s1 = eval (key_merge trim) ins s2.
+    eval (key_merge_prefix trim) ins s1 = eval (key_merge_prefix trim) ins s2.
 
 (* two replicas revoked key 7 independently (at 12.1 and at 15.2); a third replica has a
    newer change of the attribute that does not touch key 7 *)
@@ -1093,7 +1130,7 @@ Proof.
   intros c1 m1 c2 m2 k v1 v2 I1 I2 J1 J2. unfold key_witness_ins in *. inv_in; vm_compute; intros; congruence.
 Qed.
 
-Theorem key_refuted : ~ key_full_statement.
+Theorem key_prefix_refuted : ~ key_prefix_full_statement.
 Proof.
   intros H.
   specialize (H key_witness_trim key_witness_ins (Nd (Nd (L 2) (L 0)) (L 1)) (Nd (L 2) (Nd (L 0) (L 1)))
@@ -1196,13 +1233,13 @@ Proof.
 Qed.
 Theorem agree_transfers_key trim ins outs :
   agree (CKey trim ins outs) = true ->
-  WellFormed N.compare ins -> KeyConsistent ins -> KeyNoTie ins -> KeyWindow trim ins ->
+  WellFormed N.compare ins -> KeyConsistent ins -> KeyWindow trim ins ->
   forall s1 o1 s2 o2, In (s1, o1) outs -> In (s2, o2) outs ->
     wf ins s1 -> wf ins s2 -> is_node s1 -> is_node s2 -> same_leafset s1 s2 -> o1 = o2.
 Proof.
-  intros Ha HWf HC HT HWn s1 o1 s2 o2 I1 I2 W1 W2 N1 N2 Hl. cbn [agree] in Ha.
+  intros Ha HWf HC HWn s1 o1 s2 o2 I1 I2 W1 W2 N1 N2 Hl. cbn [agree] in Ha.
   rewrite <- (agree_outs_sound _ _ _ _ kmap_eqb_eq Ha _ _ I1), <- (agree_outs_sound _ _ _ _ kmap_eqb_eq Ha _ _ I2).
-  exact (key_tree_indep trim ins s1 s2 HWf HC HT HWn W1 W2 N1 N2 Hl).
+  exact (key_tree_indep trim ins s1 s2 HWf HC HWn W1 W2 N1 N2 Hl).
 Qed.
 Theorem agree_transfers_audit trim ins outs :
   agree (CAudit trim ins outs) = true ->
@@ -1213,47 +1250,4 @@ Proof.
   intros Ha HWf HC HF s1 o1 s2 o2 I1 I2 W1 W2 N1 N2 Hl. cbn [agree] in Ha.
   rewrite <- (agree_outs_sound _ _ _ _ amap_eqb_eq Ha _ _ I1), <- (agree_outs_sound _ _ _ _ amap_eqb_eq Ha _ _ I2).
   exact (audit_tree_indep ins s1 s2 HWf HC HF W1 W2 N1 N2 Hl).
-Qed.
-
-(* ================================================================== the proposed fix restores the property *)
-Lemma cid_ltb_lt a b : cid_ltb a b = true <-> cid_cmp a b = Lt.
-Proof. unfold cid_ltb. destruct (cid_cmp a b); split; congruence. Qed.
-Lemma kval_gt_fixed_spec a b : kval_gt_fixed a b = true <->
-  (krank (k_status b) < krank (k_status a) \/
-   (krank (k_status a) = krank (k_status b) /\ cid_cmp (k_cid a) (k_cid b) = Lt)).
-Proof. unfold kval_gt_fixed. rewrite orb_true_iff, andb_true_iff, N.ltb_lt, N.eqb_eq, cid_ltb_lt. tauto. Qed.
-Lemma kval_gt_fixed_asym a b : kval_gt_fixed a b = true -> kval_gt_fixed b a = false.
-Proof.
-  intros H. apply kval_gt_fixed_spec in H. destruct (kval_gt_fixed b a) eqn:E; [|reflexivity].
-  apply kval_gt_fixed_spec in E. destruct H as [H|[H1 H2]], E as [E|[E1 E2]]; try lia.
-  rewrite (cmp_antisym _ cid_laws (k_cid a) (k_cid b)), H2 in E2. discriminate.
-Qed.
-Lemma kval_gt_fixed_trans a b c : kval_gt_fixed a b = true -> kval_gt_fixed b c = true -> kval_gt_fixed a c = true.
-Proof.
-  intros H1 H2. apply kval_gt_fixed_spec in H1. apply kval_gt_fixed_spec in H2. apply kval_gt_fixed_spec.
-  destruct H1 as [H1|[H1 H1']], H2 as [H2|[H2 H2']]; try (left; lia).
-  right. split; [lia|]. exact (cmp_trans _ cid_laws _ _ _ H1' H2').
-Qed.
-Lemma key_cons_fixed ins : WellFormed N.compare ins -> KeyConsistent ins -> Cons N.compare kval_gt_fixed ins.
-Proof.
-  intros HW HC c1 m1 c2 m2 k v1 v2 I1 I2 G1 G2. unfold comparable.
-  pose proof (entries_rel_get N.compare N_laws _ _ HC _ _ _ _ _ _ _ I1 I2 G1 G2) as Hp.
-  destruct (N.lt_trichotomy (krank (k_status v1)) (krank (k_status v2))) as [H|[H|H]].
-  - right. right. apply kval_gt_fixed_spec. left. exact H.
-  - destruct (cid_cmp (k_cid v1) (k_cid v2)) eqn:E.
-    + left. apply (cmp_eq _ cid_laws) in E. pose proof (krank_inj _ _ H) as Hs. specialize (Hp Hs).
-      destruct v1 as [[s1 c1'] p1], v2 as [[s2 c2'] p2]. unfold k_status, k_cid, k_pay in *. cbn in *. congruence.
-    + right. left. apply kval_gt_fixed_spec. right. split; [exact H | exact E].
-    + right. right. apply kval_gt_fixed_spec. right. split; [symmetry; exact H|].
-      rewrite (cmp_antisym _ cid_laws (k_cid v1) (k_cid v2)), E. reflexivity.
-  - right. left. apply kval_gt_fixed_spec. left. exact H.
-Qed.
-Theorem key_fixed_tree_indep trim ins s1 s2 :
-  WellFormed N.compare ins -> KeyConsistent ins -> KeyWindow trim ins ->
-  wf ins s1 -> wf ins s2 -> is_node s1 -> is_node s2 -> same_leafset s1 s2 ->
-  eval (key_merge_fixed trim) ins s1 = eval (key_merge_fixed trim) ins s2.
-Proof.
-  intros HWf HC HWn W1 W2 N1 N2 Hl.
-  exact (tree_indep N.compare N_laws kval_gt_fixed (kval_dead trim) kval_gt_fixed_asym kval_gt_fixed_trans ins s1 s2
-    HWf (key_cons_fixed _ HWf HC) (key_win _ _ HWn) W1 W2 N1 N2 Hl).
 Qed.
